@@ -96,6 +96,10 @@ func (withdrawTx) Validate(ctx *action.Context, tx action.SignedTx) (bool, error
 		return false, action.ErrStakeAddressMismatch
 	}
 
+	// see stake.go: the amount must fit the int64 conversion of ToCoinWithBase
+	if !draw.Stake.Value.BigInt().IsInt64() {
+		return false, action.ErrInvalidAmount
+	}
 	coin := draw.Stake.ToCoinWithBase(ctx.Currencies)
 	if coin.LessThanEqualCoin(coin.Currency.NewCoinFromInt(0)) {
 		return false, action.ErrInvalidAmount
